@@ -11,7 +11,7 @@ ASSUMPTIONS = ["ties may resolve either way: only a strictly greater pending pri
 
 
 def strat_yield(tier):
-    return gen.programs(gen.Cfg(max_tasks=12 if tier == "quick" else 40, sync=False, ctx=("rec",), dag=True, flush_faults=("raise", "hard", "nested"), cancels=True,
+    return gen.programs(gen.Cfg(max_tasks=12 if tier == "quick" else 40, sync=False, ctx=("rec",), dag=True, flush_faults=("raise", "raise_base", "hard", "nested"), cancels=True,
                                 shapes=("comb", "comb", "tree", "stagger", "stagger", "diamond", "free", "chain")))
 
 
